@@ -833,6 +833,18 @@ impl Monitor for C20 {
                     chk(&mut diffs, "spread", spread_ratio.map(|x| x.u128()), a.spread, b.spread);
                     chk(&mut diffs, "fluctuation", fluctuation_limit_ratio.map(|x| x.u128()), a.fluct, b.fluct);
                     chk(&mut diffs, "twap_interval", spot_price_twap_interval.map(|x| x as u128), a.twap_interval as u128, b.twap_interval as u128);
+                    if let Op::Vamm { msg: vm::ExecuteMsg::UpdateConfig { margin_engine, insurance_fund, pricefeed, .. }, .. } = &st.op {
+                        for (name, provided, before, after) in [
+                            ("margin_engine", margin_engine, &a.cfg_engine, &b.cfg_engine),
+                            ("insurance_fund", insurance_fund, &a.cfg_insurance, &b.cfg_insurance),
+                            ("pricefeed", pricefeed, &a.cfg_pricefeed, &b.cfg_pricefeed),
+                        ] {
+                            let want = provided.clone().unwrap_or_else(|| before.clone());
+                            if *after != want {
+                                diffs.push(format!("{}: provided {:?}, before {}, stored {}", name, provided, before, after));
+                            }
+                        }
+                    }
                     r.count("R0-config-updates-cross-checked");
                 }
                 Op::Engine { msg: eng::ExecuteMsg::UpdateConfig { initial_margin_ratio, maintenance_margin_ratio, partial_liquidation_ratio, liquidation_fee, .. }, .. } => {
@@ -841,6 +853,18 @@ impl Monitor for C20 {
                     chk(&mut diffs, "maintenance", maintenance_margin_ratio.map(|x| x.u128()), a.maint, b.maint);
                     chk(&mut diffs, "partial", partial_liquidation_ratio.map(|x| x.u128()), a.partial, b.partial);
                     chk(&mut diffs, "liquidation_fee", liquidation_fee.map(|x| x.u128()), a.liq_fee, b.liq_fee);
+                    if let Op::Engine { msg: eng::ExecuteMsg::UpdateConfig { owner, insurance_fund, fee_pool, .. }, .. } = &st.op {
+                        for (name, provided, before, after) in [
+                            ("owner", owner, &a.owner, &b.owner),
+                            ("insurance_fund", insurance_fund, &a.insurance_fund, &b.insurance_fund),
+                            ("fee_pool", fee_pool, &a.fee_pool, &b.fee_pool),
+                        ] {
+                            let want = provided.clone().unwrap_or_else(|| before.clone());
+                            if *after != want {
+                                diffs.push(format!("{}: provided {:?}, before {}, stored {}", name, provided, before, after));
+                            }
+                        }
+                    }
                     r.count("R0-config-updates-cross-checked");
                 }
                 _ => {}
